@@ -56,7 +56,9 @@ def rand_tags(rng, max_tags=5, max_len=40, types=None, big=False):
         if rng.random() < 0.4:
             # explicit addresses live in other classes: in the Message Router itself the ids are auto-allocated
             # (max id + 1), so an explicit id there could collide with a later automatic one
-            addr = [rng.choice([0x93, 300, 0x401]), rng.choice([1, 1, 2, 3]), rng.randint(1, 6)]
+            addr = [rng.choice([0x93, 300, 0x401, 2]), rng.choice([1, 1, 2, 3]), rng.randint(1, 6)]
+            if addr[0] == 2:          # further instances of the Message Router's own class (instance 1 allocates automatically)
+                addr[1] = rng.choice([2, 3])
             key = tuple(addr)
             if key in used:   # an alias: same Attribute, must have same type/len
                 ty, ln = used[key]
@@ -102,11 +104,14 @@ def many_tags(rng, n=None, types=("DINT", "INT", "SINT", "REAL")):
     return [{"name": f"Tg{k}", "type": rng.choice(types), "len": rng.choice([1, 2, 3]), "addr": None} for k in range(n)]
 
 
+CLASS_ATTRS = (1, 4)
+
+
 class ArraySpec:
     """The property's own model: a set of fixed-length typed arrays.  Elements are kept as the bytes the
     tag's type encodes them to (what any read can show)."""
 
-    def __init__(self, case, addrs):
+    def __init__(self, case, addrs, class_level=False):
         self.arr = {}
         self.ty = {}
         for t in case["tags"]:
@@ -115,6 +120,12 @@ class ArraySpec:
                 self.arr[a] = [self.enc(t["type"], self.zero(t["type"]), t["type"])] * t["len"]
                 self.ty[a] = t["type"]
         self.sym = {t["name"].lower(): tuple(addrs[t["name"]]) for t in case["tags"]}
+        # the static class-level attributes (instance 0) of every class in use
+        for c in ([2] + [tuple(addrs[t["name"]])[0] for t in case["tags"]]) if class_level else []:
+            for a in CLASS_ATTRS:
+                if (c, 0, a) not in self.arr:
+                    self.arr[(c, 0, a)] = [b"\x00\x00"]
+                    self.ty[(c, 0, a)] = "INT"
 
     @staticmethod
     def zero(tyname):
@@ -270,7 +281,8 @@ def oracle_history(case, out, check_errors=False, check_bundle=False):
         return why
     if not case["reqs"]:
         return None
-    spec = ArraySpec(case, case["addrs"])
+    # (runs that dump the static class-level attributes also address them)
+    spec = ArraySpec(case, case["addrs"], class_level=("2.0.1=" in out))
     steps = out.split(";")
     if len(steps) != len(case["reqs"]):
         return f"{len(steps)} answers for {len(case['reqs'])} requests"
